@@ -43,10 +43,14 @@ structure Obs where
   wall : Nat
   rss : Int
   retried : Bool
+  /-- CPU time (user + system) the child spent in the evaluation, ms; -1 when not reported -/
+  cpu : Int := -1
 
 def parseCase (s : String) : Option Case :=
   match splitOn s ';' with
   | fam :: n :: d :: t :: rest => do
+    -- `ctx-<family>`: the same program, the deadline carried by the caller's context (no MaxDuration): same statement
+    let fam := if fam.startsWith "ctx-" then (fam.drop 4).toString else fam
     let need ← match rest with
       | [] => some none
       | [x] => x.toNat?.map some
@@ -60,7 +64,8 @@ def field (kvs : List String) (k : String) : Option String :=
 def parseObs (s : String) : Option Obs := do
   let kvs := splitOn s ';'
   pure { exit := ← field kvs "exit", res := ← field kvs "res", wall := ← (← field kvs "wall").toNat?,
-         rss := ← (← field kvs "rss").toInt?, retried := (← field kvs "retried") == "1" }
+         rss := ← (← field kvs "rss").toInt?, retried := (← field kvs "retried") == "1",
+         cpu := ((field kvs "cpu").bind (·.toInt?)).getD (-1) }
 
 def Case.maxDepth (c : Case) : Nat := if c.d == 0 then defaultMaxDepth else c.d
 
@@ -69,6 +74,24 @@ def chainOk (m n : Nat) : Bool := n == 0 || n ≤ m + 1
 
 def isUnboundedRec (fam : String) : Bool :=
   ["rec-self", "rec-arg", "rec-mutual", "rec-closure", "rec-selfkw", "rec-nontail"].contains fam
+
+/-- bounded_ext.go: non-terminating loops around builtins and library functions -/
+def isExtLoop (fam : String) : Bool :=
+  ["ext-print-big", "ext-log-big", "ext-eval-loop", "ext-catch-loop", "ext-catch-deadline"].contains fam
+
+/-- bounded_ext.go: unbounded recursion that goes through eval() at every level -/
+def isExtRec (fam : String) : Bool := ["ext-eval-rec", "ext-eval-rec-arg"].contains fam
+
+/-- bounded_ext.go: one library call on an operand of size n whose result is a multiple of it -/
+def isExtBig (fam : String) : Bool :=
+  ["ext-split-chars", "ext-split-sep", "ext-runes", "ext-regsub", "ext-str-big", "ext-json-big", "ext-base64"].contains fam
+
+/-- bounded_ext.go: growth in a loop through library functions / host-side objects -/
+def isExtGrow (fam : String) : Bool :=
+  ["ext-image-loop", "ext-sprintf-double", "ext-join-double", "ext-str-double"].contains fam
+
+/-- nested text that is COMPUTED by the program and handed to the parser by unjson / eval -/
+def isExtNest (fam : String) : Bool := ["ext-unjson-nest", "ext-eval-nest"].contains fam
 
 def i64 (i : Int) : I64 := BitVec.ofInt 64 i
 
@@ -100,6 +123,10 @@ def hugeModel (fam : String) (n : Int) (free : Int) : Option String :=
 /-- what the models predict for the result kind; `none` = no prediction -/
 def predict (c : Case) : Option String :=
   if c.fam.startsWith "loop-" || c.fam == "sleep" then some "deadline"
+  -- loops whose body is a builtin / library call (output, caught errors, eval): still loops, still polled
+  else if isExtLoop c.fam then some "deadline"
+  else if isExtRec c.fam then
+    if c.t == 0 && !chainOk c.maxDepth (c.maxDepth + 2) then some "depth" else none
   else if isUnboundedRec c.fam then
     -- unbounded recursion = a chain longer than any limit: the guard fires (when no deadline can fire first)
     if c.t == 0 && !chainOk c.maxDepth (c.maxDepth + 2) then some "depth" else none
@@ -121,6 +148,11 @@ def resultBytes (fam : String) (n : Int) : Int :=
   | "huge-str" => 2 * n
   | "huge-cat" => 2 * 16 * n
   | "huge-strcat" => 32 * n
+  -- library functions: a string header and a boxed object per part / rune; text per element; 4 bytes per 3
+  | "ext-split-chars" | "ext-split-sep" | "ext-runes" => 32 * n
+  | "ext-regsub" => 58 * n
+  | "ext-str-big" | "ext-json-big" => 2 * n
+  | "ext-base64" => 3 * n
   | _ => 16 * n
 
 /-- which result kinds the property allows for a family -/
@@ -143,9 +175,29 @@ def resOk (c : Case) (res : String) : Bool :=
   else if c.fam.startsWith "grow-" then res == "mem" || res == "err" || res == "deadline"
   else if c.fam.startsWith "nest-" then res == "ok" || res == "depth" || res == "err" || res == "deadline" || res == "parse"
   else if c.fam.startsWith "dag-" then res == "ok" || res == "deadline" || res == "mem" || res == "err"
+  -- bounded_ext.go
+  else if isExtLoop c.fam then res == "deadline"
+  else if isExtRec c.fam then (if c.t == 0 then res == "depth" else res == "depth" || res == "deadline")
+  -- the depth failure is not an error value: `catch` does not swallow it and the program ends there
+  else if c.fam == "ext-catch-rec" then res == "depth" || (c.t != 0 && res == "deadline")
+  else if isExtGrow c.fam then res == "mem" || res == "err" || res == "deadline"
+  else if isExtBig c.fam then
+    res == "mem" || res == "err" || res == "deadline" || (res == "ok" && resultBytes c.fam c.n < memLimitKB * 1024)
+  -- image.new: refused by its dimension limit or by the budget, or small enough
+  else if c.fam == "ext-image-big" then res == "err" || res == "mem" || (res == "ok" && 8 * c.n * c.n < memLimitKB * 1024)
+  -- fmt caps a width at 10^6: a huge width is an error text, never an allocation
+  else if c.fam == "ext-width" then res == "ok" || res == "err" || res == "mem"
+  else if isExtNest c.fam then res == "ok" || res == "depth" || res == "err" || res == "deadline" || res == "parse"
+  else if c.fam.startsWith "macro-" then res == "ok" || res == "err" || res == "deadline" || res == "mem" || res == "depth"
   else false
 
-def timeOk (c : Case) (o : Obs) : Bool := c.t == 0 || o.wall ≤ c.t + slackMs
+/-- the time a run took, for the deadline clause: the wall-clock time, or - for the families that compute (all but
+`sleep`, which waits by design) - the CPU time when that is smaller: on a busy machine the wall-clock time also counts
+how long the process waited for a processor.  A run that really overruns its deadline by computing burns that CPU time. -/
+def effTime (c : Case) (o : Obs) : Nat :=
+  if c.fam == "sleep" || o.cpu < 0 then o.wall else min o.wall o.cpu.toNat
+
+def timeOk (c : Case) (o : Obs) : Bool := c.t == 0 || effTime c o ≤ c.t + slackMs
 def rssOk (o : Obs) : Bool := 0 ≤ o.rss && o.rss ≤ rssFactor * memLimitKB
 
 /-- **C09, runtime part, on one measured run**: the child exited normally (never killed, never a fatal
@@ -165,14 +217,19 @@ def klassOf (c : Case) (o : Obs) : String :=
   else if c.fam.startsWith "dag-" then
     if o.exit == "killed" || o.exit == "fatal:oom" || (o.exit == "ok" && (!rssOk o || !timeOk c o) && resOk c o.res)
     then "shared-structure-exponential-traversal" else ""
-  else if c.fam.startsWith "nest-" then
-    if o.exit == "killed" || (o.exit == "ok" && !timeOk c o && resOk c o.res) then "deeply-nested-source-overruns-deadline" else ""
+  else if c.fam.startsWith "nest-" || isExtNest c.fam then
+    -- time only: a run that also leaves the memory bound is not this finding (parse errors quoting whole lines did)
+    if o.exit == "killed" || (o.exit == "ok" && !timeOk c o && rssOk o && resOk c o.res) then "deeply-nested-source-overruns-deadline" else ""
+  -- regsub builds its result in one library call: nothing polls, nothing checks the budget
+  else if c.fam == "ext-regsub" then
+    if o.exit == "killed" || o.exit == "fatal:oom" || (o.exit == "ok" && (!rssOk o || !timeOk c o) && resOk c o.res)
+    then "library-call-result-unguarded" else ""
   else ""
 
 def overBucket (c : Case) (o : Obs) : String :=
   if c.t == 0 then "no-deadline"
   else
-    let over := o.wall - c.t
+    let over := effTime c o - c.t
     if over ≤ 50 then "over<=50ms" else if over ≤ 500 then "over<=500ms" else if over ≤ 1500 then "over<=1.5s"
     else if over ≤ slackMs then "over<=slack" else "over>slack"
 
